@@ -55,7 +55,11 @@ template <class P, class Prm> static result apply_only(const problem &pb, const 
     result r;
     try {
         P p(*pb.A, prm);
-        amgcl::backend::numa_vector<double> f(pb.rhs), y(pb.rhs.size());
+        // repeated apply() into vectors pre-filled with different junk: the result must not depend on it
+        amgcl::backend::numa_vector<double> f(pb.rhs), y(pb.rhs.size()), z(pb.rhs.size());
+        for (size_t i = 0; i < pb.rhs.size(); ++i) { y[i] = 1.0 + 0.25 * (double)(i % 7); z[i] = -3.0 + (double)(i % 5); }
+        p.apply(f, y); r.px.vec(y.data(), y.size());
+        p.apply(f, z); r.px.vec(z.data(), z.size());
         p.apply(f, y); r.px.vec(y.data(), y.size()); r.it = 0;
         r.describe(p);
     } catch (const std::exception &e) { r.threw = true; r.exc = e.what(); }
@@ -216,6 +220,44 @@ static void bad_and_unknown() {
       construct<RT2>("unkrt", "class-nested", "precond.solver.maxiter", "3", t); }
 }
 
+// ---------------- the caller's tree after construction; export -> re-import
+template <class F> static void ctor_case(const char *w, const ptree &t0, F make) {
+    ptree t = t0;                         // a NON-const tree owned by the caller
+    bool threw = false; std::string exc; long long t1 = -1, t2 = -2;
+    try { t1 = make(t); t2 = make(t); } catch (const std::exception &e) { threw = true; exc = e.what(); }
+    vr::obj o; o.str("k", "rtctor").str("w", w).b("threw", threw).str("exc", exc).b("unchanged", t == t0).b("same_type", t1 == t2).i("type", t1);
+    vr::emit(o.done());
+}
+static void ctor_cases() {
+    const problem &pb = problems[0];
+    { ptree t; t.put("type", "gmres"); t.put("M", 7);
+      ctor_case("solver", t, [&](ptree &q) { RSolver s(pb.rhs.size(), q); return (long long)s.s; }); }
+    { ptree t; t.put("type", "ilu0"); t.put("damping", 0.5);
+      ctor_case("relaxation", t, [&](ptree &q) { amgcl::runtime::relaxation::wrapper<B> s(*pb.A, q); return (long long)s.r; }); }
+    { ptree t; t.put("type", "aggregation"); t.put("over_interp", 1.25);
+      ctor_case("coarsening", t, [&](ptree &q) { amgcl::runtime::coarsening::wrapper<B> s(q); return (long long)s.c; }); }
+    { ptree t; t.put("class", "relaxation"); t.put("type", "damped_jacobi");
+      ctor_case("preconditioner", t, [&](ptree &q) { amgcl::runtime::preconditioner<B> s(*pb.A, q);
+            amgcl::backend::numa_vector<double> f(pb.rhs), y(pb.rhs.size()); s.apply(f, y); vr::digest d; d.vec(y.data(), y.size()); return d.lo(); }); }
+    { ptree t = base_tree(); t.put("solver.type", "gmres");
+      ctor_case("make_solver", t, [&](ptree &q) { RT1 s(*pb.A, q); std::vector<double> x(pb.rhs.size(), 0.0); size_t it; double res;
+            std::tie(it, res) = s(pb.rhs, x); vr::digest d; d.vec(x.data(), x.size()); return d.lo(); }); }
+    // export the stored parameters of a run-time composition and build a second one from them
+    for (const char *st : {"cg", "gmres", "idrs", "richardson", "bicgstab"}) for (int fl = 0; fl < 2; ++fl) {
+        ptree t = base_tree(); t.put("solver.type", st); t.put("solver.maxiter", 9);
+        if (fl) t.put("precond.class", "amg");
+        result a, b; ptree ex;
+        try {
+            if (fl) { RT2 s(*pb.A, t); s.get_params(ex); } else { RT1 s(*pb.A, t); s.get_params(ex); }
+        } catch (const std::exception &e) { a.threw = true; a.exc = e.what(); }
+        a = fl ? run_solver<RT2>(pb, t) : run_solver<RT1>(pb, t);
+        b = fl ? run_solver<RT2>(pb, ex) : run_solver<RT1>(pb, ex);
+        vr::obj o; o.str("k", "reimport").str("s", st).str("flavour", fl ? "preconditioner" : "amg")
+            .str("exported_type", ex.get("solver.type", std::string("(absent)")));
+        a.json(o, "_t"); b.json(o, "_r"); vr::emit(o.done());
+    }
+}
+
 int main() {
     vr::install_terminate();
     for (int m = 0; m < nproblems(); ++m) problems.push_back(make_problem(m));
@@ -224,6 +266,7 @@ int main() {
     enum_table<amgcl::runtime::coarsening::type>("coarsening");
     enum_table<amgcl::runtime::precond_class::type>("precond");
     bad_and_unknown();
+    ctor_cases();
     precond_classes();
 #define C14_X(i, s, c, r) run_rt<amgcl::solver::s<B>, amgcl::coarsening::c, amgcl::relaxation::r>(i, #s, #c, #r);
     C14_TRIPLES(C14_X)
